@@ -191,9 +191,21 @@ def _run_batch(batch):
     for case in batch:
         try:
             out.append(_worker_fn(case))
-        except Exception as e:  # harness bug: surfaced as machinery failure by the caller
+        except Exception as e:
             import traceback
-            out.append({"machinery": "%s: %s\n%s" % (type(e).__name__, e, traceback.format_exc())})
+            frames = traceback.extract_tb(e.__traceback__)
+            if any(os.sep + "nptdms" + os.sep in fr.filename for fr in frames):
+                # the library under test raised where the replay did not expect it to: that is an observation about the
+                # library (a violation of whatever property the replay is checking), not a failure of the machinery
+                lib = [fr for fr in frames if os.sep + "nptdms" + os.sep in fr.filename][-1]
+                small = {k: v for k, v in case.items() if k != "rec"} if isinstance(case, dict) else {}
+                out.append({"n": 1, "keys": [], "validated": 0,
+                            "fails": [({"kind": "library-raised", "exception": type(e).__name__,
+                                        "where": "%s:%s" % (os.path.basename(lib.filename), lib.name)},
+                                       {"case": case.get("rec") if isinstance(case, dict) else None, "params": small,
+                                        "traceback": traceback.format_exc()[-2000:]})]})
+            else:   # harness bug: surfaced as machinery failure by the caller
+                out.append({"machinery": "%s: %s\n%s" % (type(e).__name__, e, traceback.format_exc())})
     return out
 
 
